@@ -16,7 +16,7 @@ mod tests;
 // ================================================================================================
 
 /// The number of constraints on the management of the memory chiplet.
-pub const NUM_CONSTRAINTS: usize = 17;
+pub const NUM_CONSTRAINTS: usize = 18;
 /// The degrees of constraints on the management of the memory chiplet. All constraint degrees are
 /// increased by 3 due to the selectors for the memory chiplet.
 pub const CONSTRAINT_DEGREES: [usize; NUM_CONSTRAINTS] = [
@@ -26,6 +26,7 @@ pub const CONSTRAINT_DEGREES: [usize; NUM_CONSTRAINTS] = [
     8, // Enforce values in ctx, addr, clk transition correctly.
     6, 6, 6, 6, // Enforce correct memory initialization when reading from new memory.
     5, 5, 5, 5, // Enforce correct memory copy when reading from existing memory
+    6, // Enforce that the first memory row is not marked as a read of existing memory.
 ];
 
 // MEMORY TRANSITION CONSTRAINTS
@@ -76,6 +77,19 @@ pub fn enforce_constraints_with_row_flag<E: FieldElement>(
 
     // Constrain the memory values.
     enforce_values(frame, &mut result[index..], memory_flag, memory_row_flag);
+}
+
+/// Enforces that the first row of the memory chiplet is not marked as a read of previously accessed
+/// memory (s1 = 0): there is no previous memory row from which the values could be copied, so a
+/// read in this row must be subject to the zero-initialization constraints.
+///
+/// - `first_row_flag` is set when the next row is the first row of the memory chiplet.
+pub fn enforce_first_row_constraint<E: FieldElement>(
+    frame: &EvaluationFrame<E>,
+    result: &mut [E],
+    first_row_flag: E,
+) {
+    result[NUM_CONSTRAINTS - 1] = first_row_flag * frame.selector_next(1);
 }
 
 // TRANSITION CONSTRAINT HELPERS
